@@ -77,7 +77,7 @@ Fixpoint tree_matches_upto (s : st) (n : nat) : bool :=
 Definition tree_matches (s : st) : bool := tree_matches_upto s (N.to_nat (asize s)).
 
 (* ============ A (FIXED by ccd70f3): a precommitted record without its values is not reloaded ============ *)
-Definition cfA := mkCfg 4 4 false 0 RCut false true.
+Definition cfA := mkCfg 4 4 false 0 RSync false true.
 Definition sA0 := init Hh cfA 1.
 (* a committer appends its values and precommits; the tx-log buffer reaches the OS (buffer full /
    write-back), the value-log buffer does not; crash.  Before the fix recovery reloaded the record
@@ -163,7 +163,7 @@ Example scenario_B_repaired :
 Proof. vm_compute. repeat split; congruence. Qed.
 
 (* ============ C: PreallocFiles — a partially written commit-log entry stops recovery ============ *)
-Definition cfC := mkCfg 4 4 true 440 RCut false true.
+Definition cfC := mkCfg 4 4 true 440 RSync false true.
 Definition sC0 := init Hh cfC 1.
 (* one transaction goes through sync() up to the commit-log append; 20 of the 44 bytes of its entry
    reach the disk (write buffer flushed in the middle of the entry, or torn write); crash.
@@ -186,7 +186,7 @@ Proof.
 Qed.
 
 (* the same image without PreallocFiles recovers (the partial entry is trimmed) *)
-Definition cfC' := mkCfg 4 4 false 0 RCut false true.
+Definition cfC' := mkCfg 4 4 false 0 RSync false true.
 Definition sC1' := get (run Hh (init Hh cfC' 1) opsC) (init Hh cfC' 1).
 Definition imC' := img_txcm sC1'.
 Example no_prealloc_recovers : is_ok (recover Hh cfC' imC') = true.
@@ -195,7 +195,7 @@ Proof. vm_compute. reflexivity. Qed.
 (* the same image with the proposed repair fixes/C03-prealloc-clog-trim.diff (c_preallocfix = true): the
    slot is a zero-padded prefix of the entry of the transaction found in the tx log right after the
    last valid entry; it is ignored, the transaction is reloaded as precommitted *)
-Definition cfCfix := mkCfg 4 4 true 440 RCut true true.
+Definition cfCfix := mkCfg 4 4 true 440 RSync true true.
 Definition sC1f := get (run Hh (init Hh cfCfix 1) opsC) (init Hh cfCfix 1).
 Definition sC2f := get (recover Hh cfCfix (img_txcm sC1f)) (init Hh cfCfix 1).
 Example scenario_C_repaired :
@@ -203,8 +203,8 @@ Example scenario_C_repaired :
   committed sC2f = 0 /\ precommitted sC2f = 1 /\ asize sC2f = 1.
 Proof. vm_compute. repeat split; congruence. Qed.
 
-(* ============ D (regression with 09014a8): the tree's logs are truncated while its commit log still
-   lists the entries ============ *)
+(* ============ D (FIXED by 0b488aa; history: the code between 09014a8 and 0b488aa, c_ahtreset = RCut): the
+   tree's logs are truncated while its commit log still lists the entries ============ *)
 (* Since 09014a8 a rewind below the flushed size truncates the file (and removes chunk files).
    ahtree.ResetSize rewinds the tree's commit log (fix 6a85281) WITHOUT fsyncing it; the next Append
    rewinds pLog/dLog = truncation (chunk files removed: durable at once).  Nothing orders the two
@@ -248,8 +248,8 @@ Proof.
   vm_compute. repeat split; congruence.
 Qed.
 
-(* the SAME trace with the proposed repair fixes/C03-aht-durable-reset.diff (ResetSize fsyncs the
-   tree's commit log after rewinding it): the store opens, the acknowledged transaction is there *)
+(* the SAME trace on the code since 0b488aa (ResetSize fsyncs the tree's commit log after rewinding
+   it): the store opens, the acknowledged transaction is there *)
 Definition cfD' := mkCfg 2 4 false 0 RSync false true.
 Definition sD1' := get (run Hh (init Hh cfD' 1) opsD1) (init Hh cfD' 1).
 Definition sD2' := get (recover Hh cfD' (img_dur sD1')) (init Hh cfD' 1).
